@@ -73,6 +73,8 @@ def cstr(s):
         pts = list(s)
     if not pts:
         return "([]:str)"
+    if all(32 <= p < 127 for p in pts):
+        return '(s2l "%s")' % "".join(chr(p) for p in pts).replace('"', '""')
     return "[" + ";".join(map(str, pts)) + "]%N"
 
 
@@ -146,13 +148,15 @@ def coq_files():
 
 def write_if_changed(path, text):
     try:
-        if open(path).read() == text:
-            return False
+        with open(path) as fh:
+            if fh.read() == text:
+                return False
     except OSError:
         pass
     os.makedirs(os.path.dirname(path), exist_ok=True)
     tmp = path + ".tmp%d" % os.getpid()
-    open(tmp, "w").write(text)
+    with open(tmp, "w") as fh:
+        fh.write(text)
     os.replace(tmp, path)
     return True
 
@@ -223,7 +227,7 @@ def props_obligations(prop):
     printed = re.findall(r"Print Assumptions\s+([A-Za-z0-9_'.]+)\s*\.", txt_nc)
     out_dir = "%s/%s" % (WORK, prop)
     os.makedirs(out_dir, exist_ok=True)
-    cmd = "timeout 900 coqc -w -all -Q . PV Props/%s.v -o %s/props_%s.vo" % (prop, out_dir, prop)
+    cmd = "timeout 900 coqc -w -all -Q . PV Props/%s.v -o %s/%s.vo" % (prop, out_dir, prop)
     rc, out, _ = sh(cmd, cwd=COQ, timeout=930)
     blocks = []
     cur = None
@@ -255,7 +259,8 @@ def coqchk(prop, timeout=1500):
 # Evaluating the model inside Coq
 # --------------------------------------------------------------------------
 def _coqc_text(path, text, timeout):
-    open(path, "w").write(text)
+    with open(path, "w") as fh:
+        fh.write(text)
     d, f = os.path.split(path)
     rc, out, dt = sh("timeout %d coqc -w -all -Q %s PV %s" % (timeout, COQ, f), cwd=d, timeout=timeout + 20)
     for ext in (".vo", ".vok", ".vos", ".glob"):
@@ -428,7 +433,8 @@ def write_replay(ctx, kind, payload):
         n += 1
     path = "%s/replay-%d.json" % (ctx.work, n)
     payload = dict(payload, property=ctx.prop, kind=kind, seed=ctx.seed, tier=ctx.tier)
-    json.dump(jsonable(payload), open(path, "w"), indent=1)
+    with open(path, "w") as f:
+        json.dump(jsonable(payload), f, indent=1)
     return path
 
 
@@ -463,4 +469,5 @@ def write_evidence(ctx, violations):
         "violations": violations,
     }
     os.makedirs(VERIF + "/evidence", exist_ok=True)
-    json.dump(jsonable(ev), open("%s/evidence/%s.json" % (VERIF, ctx.prop), "w"), indent=1)
+    with open("%s/evidence/%s.json" % (VERIF, ctx.prop), "w") as f:
+        json.dump(jsonable(ev), f, indent=1)
